@@ -394,4 +394,133 @@ theorem ref_rmGapSites {b : Bag} (h : Good b) (num den : Nat) (ends : Bool) :
     simp only [ha', Bool.not_false, if_true, Prod.mk.injEq, Option.some.injEq] at e ⊢
     exact ⟨e.1, e.2, h⟩
 
+/-! ### `Compress`: the C13 model on rectangular rows is the reference's statement -/
+
+/-- the reference's statement on plain rows of `L` columns: new rows and status -/
+def specCompress (rows : List (String × Seq)) (L : Nat) : List (String × Seq) × String :=
+  let cols := (List.range L).map fun j => rows.filterMap fun r => r.2[j]?
+  let tbl := patternTable cols
+  (rows.zipIdx.map fun (r, i) => (r.1, tbl.filterMap fun p => p.1[i]?), "ok[" ++ plusList (tbl.map Prod.snd) ++ "]")
+
+theorem spec_compress_eq (s : SBag) :
+    Spec.stepOp s .compress =
+      if !s.isAlign then (some s, "na") else
+      if s.rows = [] then (none, "ok[_]") else
+      (some { s with rows := (specCompress s.rows s.length.toNat).1 }, (specCompress s.rows s.length.toNat).2) := rfl
+
+theorem column_eq_filterMap (rows : CRows) (j : Nat) (h : ∀ p ∈ rows, j < p.2.length) :
+    columnAt rows j = rows.filterMap fun r => r.2[j]? := by
+  induction rows with
+  | nil => rfl
+  | cons p t ih =>
+    have hp := h p (by simp)
+    have := ih (fun q hq => h q (List.mem_cons_of_mem _ hq))
+    simp only [columnAt, List.map_cons] at this ⊢
+    rw [List.filterMap_cons, this]
+    simp [List.getD_eq_getElem?_getD, List.getElem?_eq_getElem hp]
+
+theorem pats_getD_eq_filterMap (tbl : List (List Byte × Nat)) (i : Nat) (h : ∀ p ∈ tbl, i < p.1.length) :
+    (tbl.map fun p => p.1.getD i 0) = tbl.filterMap fun p => p.1[i]? := by
+  induction tbl with
+  | nil => rfl
+  | cons p t ih =>
+    have hp := h p (by simp)
+    have := ih (fun q hq => h q (List.mem_cons_of_mem _ hq))
+    rw [List.map_cons, List.filterMap_cons, this]
+    simp [List.getD_eq_getElem?_getD, List.getElem?_eq_getElem hp]
+
+/-- **the C13 model of `Compress` on rectangular rows = the reference's statement** -/
+theorem compress_rows_eq (rows : CRows) (L : Nat) (hlen : ∀ p ∈ rows, p.2.length = L) :
+    (compress rows (L : Int)).1 = (specCompress rows L).1 ∧
+    "ok[" ++ plusList (compress rows (L : Int)).2.1 ++ "]" = (specCompress rows L).2 := by
+  have hcols : ((List.range L).map (columnAt rows)) = (List.range L).map fun j => rows.filterMap fun r => r.2[j]? := by
+    apply List.map_congr_left
+    intro j hj
+    apply column_eq_filterMap
+    intro p hp
+    rw [hlen p hp]; exact List.mem_range.mp hj
+  have hpat : ∀ e ∈ patternTable ((List.range L).map (columnAt rows)), e.1.length = rows.length := by
+    intro e he
+    obtain ⟨j, _, ej⟩ := List.mem_map.mp (Gv.Props.C13.patternTable_mem _ e he).1
+    rw [← ej]; simp [columnAt]
+  unfold compress specCompress
+  simp only [Int.toNat_natCast]
+  rw [← hcols]
+  refine ⟨?_, rfl⟩
+  apply List.map_congr_left
+  intro ri hri
+  obtain ⟨r, i⟩ := ri
+  have hi : i < rows.length := by simpa using List.snd_lt_of_mem_zipIdx hri
+  simp only []
+  congr 1
+  apply pats_getD_eq_filterMap
+  intro e he
+  rw [hpat e he]; exact hi
+
+/-- result and state of the model's `Compress` when no row is too short -/
+def cmpRes (b : Bag) : CRows × List Nat × Int := compress (pairs b) b.length
+def cmpState (b : Bag) : Bag := { b with rows := withSeqs b.rows (cmpRes b).1, length := (cmpRes b).2.2 }
+
+theorem compressBag_rect_eq {b : Bag} (h : Rect b) (ha : b.isAlign = true) :
+    compressBag b = some (cmpState b, (cmpRes b).2.1) := by
+  have hshort : ¬ (b.rows.any fun r => decide (r.seq.length < b.length.toNat)) = true := by
+    simp only [List.any_eq_true, decide_eq_true_eq, not_exists, not_and, Nat.not_lt]
+    intro r hr
+    have := h.rows_len ha r hr
+    omega
+  unfold compressBag; rw [if_neg hshort]; rfl
+
+theorem cmpRes_nonempty {b : Bag} (h : Rect b) (ha : b.isAlign = true) (hrows : b.rows ≠ []) :
+    (cmpRes b).1 = (specCompress (pairs b) b.length.toNat).1 ∧
+    "ok[" ++ plusList (cmpRes b).2.1 ++ "]" = (specCompress (pairs b) b.length.toNat).2 := by
+  have hnn : 0 ≤ b.length := by
+    cases hr : b.rows with
+    | nil => exact absurd hr hrows
+    | cons y t =>
+      have := h.rows_len ha y (by simp [hr])
+      omega
+  have hL : ((b.length.toNat : Nat) : Int) = b.length := Int.toNat_of_nonneg hnn
+  have hlen : ∀ p ∈ pairs b, p.2.length = b.length.toNat := by
+    intro p hp
+    obtain ⟨r, hr, rfl⟩ := List.mem_map.mp hp
+    have := h.rows_len ha r hr
+    simp only []
+    omega
+  have key := compress_rows_eq (pairs b) b.length.toNat hlen
+  rw [hL] at key
+  exact key
+
+theorem ref_compress {b : Bag} (h : Good b) : Refines b .compress := by
+  intro s' st e
+  rw [spec_compress_eq] at e
+  simp only [Model.stepOp, abs_isAlign] at e ⊢
+  by_cases ha : b.isAlign = true
+  · simp only [ha, Bool.not_true, Bool.false_eq_true, if_false] at e ⊢
+    by_cases hrows : b.rows = []
+    · have hp : (abs b).rows = [] := by simp [pairs, hrows]
+      rw [if_pos hp] at e
+      simp at e
+    · have hp : ¬ (abs b).rows = [] := by simpa [pairs] using hrows
+      rw [if_neg hp] at e
+      simp only [Prod.mk.injEq, Option.some.injEq] at e
+      have hv := compressBag_rect_eq h.rect ha
+      have hgood : Good (cmpState b) := by
+        obtain ⟨k, i, n, a, al, _⟩ := compressBag_fields hv
+        exact h.transfer_seqs k i n a al (rect_compressBag hrows _ hv)
+      have hnames : (cmpRes b).1.map Prod.fst = b.rows.map (·.name) :=
+        ((Gv.Props.C13.compress_spec (pairs b) b.length).1).trans (pairs_names b)
+      have habs : abs (cmpState b) = { abs b with rows := (cmpRes b).1 } := by
+        have := pairs_withSeqs b.rows _ hnames
+        simp only [abs, pairs, cmpState]
+        rw [this]
+      simp only [hv]
+      refine ⟨?_, ?_, hgood⟩
+      · rw [habs, ← e.1, (cmpRes_nonempty h.rect ha hrows).1, h.rect.abs_length ha]
+        simp [abs, ha]
+      · rw [← e.2, (cmpRes_nonempty h.rect ha hrows).2, h.rect.abs_length ha]
+        rfl
+  · have ha' : b.isAlign = false := by simpa using ha
+    simp only [ha', Bool.not_false, if_true, Prod.mk.injEq, Option.some.injEq] at e ⊢
+    exact ⟨e.1, e.2, h⟩
+
 end Gv.Proofs.BagAbs
